@@ -275,10 +275,13 @@ def make_data_factory(flavour: str) -> Callable[[str], Any]:
 
 
 # ---------------------------------------------------------------- building real trees
-def build(spec: Spec, *, name: str = "T", flavour: str | None = None, tree_cls=None, mk=None):
+def build(spec: Spec, *, name: str = "T", flavour: str | None = None, tree_cls=None, mk=None, order: str = "pre"):
     """Build the real tree for `spec` through the public API.  Returns (tree, nodes) with
     nodes[i] the real node of record i.  For flavour 'eq' style specs (label 'x' with
-    explicit ids) data objects are equal strings."""
+    explicit ids) data objects are equal strings.
+    order='rev': the same tree, but every sibling group is created last-to-first (each node is
+    prepended), level by level -- the creation / registration order then differs from the
+    pre-order, as it does after moves and insertions."""
     from nutree import Tree
     from nutree.typed_tree import TypedTree
 
@@ -291,6 +294,25 @@ def build(spec: Spec, *, name: str = "T", flavour: str | None = None, tree_cls=N
     tree = tree_cls(name, **kw)
     if mk is None:
         mk = make_data_factory(flavour)
+    if order == "rev":
+        nodes = [None] * len(spec.nodes)
+        ch = children_of([r[0] for r in spec.nodes])
+        level = [-1]
+        while level:
+            nxt = []
+            for pi in reversed(level):  # parents last-to-first as well: clones below different parents register in reverse
+                parent = tree if pi == -1 else nodes[pi]
+                for ci in reversed(ch[pi]):
+                    _p, lab, did, kind = spec.nodes[ci]
+                    args = {"before": True}
+                    if did is not None:
+                        args["data_id"] = did
+                    if spec.typed:
+                        args["kind"] = kind
+                    nodes[ci] = parent.add(mk(lab), **args)
+                nxt += ch[pi]
+            level = nxt
+        return tree, nodes
     nodes = []
     for p, lab, did, kind in spec.nodes:
         parent = tree if p == -1 else nodes[p]
